@@ -682,3 +682,224 @@ def assign_chain(stmts, env, hook, result):
     for nm, txt in reversed(lets):
         out = '(let %s := %s in %s)' % (nm, txt, out)
     return out
+
+
+# ---------------------------------------------------------------------------
+# Strings and calls that can raise (appended for C16's formatted-string functions; generic).
+#
+# Types: 'str' (list of character codes), 'char' (one code), 'strlist'.  Sub-expressions that can
+# raise a Python built-in exception -- s[k], l[k], int(s[, base]), a shift by a negative count, a
+# call of a translated function returning `res` -- are hoisted, in evaluation order, into
+# `match <res expr> with Err k => Err k | Ok t__n => ... end` around the statement (the support
+# functions str_index / nth_r / py_int_r / shift_count_r live in the importing Coq file).  Hoisting
+# out of a short-circuited operand or a conditional-expression branch would change the evaluation
+# order, so it is refused there.
+
+class ExprTrStr(ExprTrOpt):
+    EXTRA_TYPES = ('str', 'char', 'strlist')
+
+    def __init__(self, env=None, hook=None, calls=None, counter=None):
+        ExprTrOpt.__init__(self, env, hook, calls)
+        self.binds = []
+        self.counter = counter if counter is not None else [0]
+
+    def bind(self, rexpr, ty):
+        self.counter[0] += 1
+        nm = 't__%d' % self.counter[0]
+        self.binds.append((nm, rexpr))
+        return (nm, ty)
+
+    def _no_new_binds(self, node, f):
+        n0 = len(self.binds)
+        r = f()
+        if len(self.binds) != n0:
+            _fail(node, 'a call that can raise inside a short-circuited / conditional sub-expression')
+        return r
+
+    def tr_BoolOp(self, n):
+        first = self.tr(n.values[0])          # the first operand is always evaluated
+        f = 'andb' if isinstance(n.op, ast.And) else 'orb'
+        txt = self.as_bool(first)
+        for v in n.values[1:]:
+            t = self._no_new_binds(v, lambda v=v: self.tr(v))
+            txt = '(%s %s %s)' % (f, txt, self.as_bool(t))
+        return (txt, 'bool')
+
+    def tr_IfExp(self, n):
+        c = self.as_bool(self.tr(n.test))
+        a = self._no_new_binds(n.body, lambda: self.tr(n.body))
+        b = self._no_new_binds(n.orelse, lambda: self.tr(n.orelse))
+        if a[1] == b[1]:
+            return ('(if %s then %s else %s)' % (c, a[0], b[0]), a[1])
+        return ('(if %s then %s else %s)' % (c, self.as_Z(a), self.as_Z(b)), 'Z')
+
+    def tr_Constant(self, n):
+        if isinstance(n.value, str):
+            if len(n.value) == 1:
+                return ('(%d)%%Z' % ord(n.value), 'char')
+            return ('[%s]' % '; '.join('(%d)%%Z' % ord(c) for c in n.value), 'str')
+        return ExprTrOpt.tr_Constant(self, n)
+
+    @staticmethod
+    def _as_str(t):
+        if t[1] == 'str':
+            return t[0]
+        if t[1] == 'char':
+            return '[%s]' % t[0]
+        raise Untranslatable('value of type %s used as a string: %s' % (t[1], t[0]))
+
+    def tr_Compare(self, n):
+        r0 = n.comparators[0]
+        if len(n.ops) != 1 or (isinstance(n.ops[0], (ast.Is, ast.IsNot))):
+            n0 = len(self.binds)
+            r = ExprTrOpt.tr_Compare(self, n)
+            if len(self.binds) != n0 and len(n.ops) != 1:
+                _fail(n, 'chained comparison over calls that can raise')
+            return r
+        op = n.ops[0]
+        lt, rt = self.tr(n.left), self.tr(r0)          # each operand translated (and hoisted) exactly once
+        if isinstance(op, (ast.Eq, ast.NotEq)):
+            if lt[1] in ('str', 'char') or rt[1] in ('str', 'char'):
+                if lt[1] == 'char' and rt[1] == 'char':
+                    eq = '(Z.eqb %s %s)' % (lt[0], rt[0])
+                else:
+                    eq = '(str_eqb %s %s)' % (self._as_str(lt), self._as_str(rt))
+            elif (lt[1] == 'optZ') != (rt[1] == 'optZ'):
+                o, z = (lt, rt) if lt[1] == 'optZ' else (rt, lt)
+                eq = '(match %s with None => false | Some z__ => Z.eqb z__ %s end)' % (o[0], self.as_Z(z))
+            else:
+                eq = '(Z.eqb %s %s)' % (self.as_Z(lt), self.as_Z(rt))
+            return (eq if isinstance(op, ast.Eq) else '(negb %s)' % eq, 'bool')
+        f = CMPOPS.get(type(op))
+        if f is None:
+            _fail(n, 'unsupported comparison')
+        return ('(%s %s %s)' % (f, self.as_Z(lt), self.as_Z(rt)), 'bool')
+
+    def tr_BinOp(self, n):
+        if isinstance(n.op, (ast.LShift, ast.RShift)):
+            l = self.as_Z(self.tr(n.left))
+            r = self.as_Z(self.tr(n.right))
+            self.bind('(shift_count_r %s)' % r, 'Z')       # ValueError: negative shift count
+            return ('(%s %s %s)' % (BINOPS[type(n.op)], l, r), 'Z')
+        return ExprTrOpt.tr_BinOp(self, n)
+
+    def tr_Subscript(self, n):
+        sl = n.slice
+        if isinstance(sl, ast.Index):       # python < 3.9
+            sl = sl.value
+        # hex(z)[2:] / bin(z)[2:]
+        if isinstance(n.value, ast.Call) and isinstance(n.value.func, ast.Name) and n.value.func.id in ('hex', 'bin') \
+                and len(n.value.args) == 1 and not n.value.keywords and isinstance(sl, ast.Slice) \
+                and isinstance(sl.lower, ast.Constant) and sl.lower.value == 2 and sl.upper is None and sl.step is None:
+            z = self.as_Z(self.tr(n.value.args[0]))
+            return ('(%s %s)' % ('py_hex2' if n.value.func.id == 'hex' else 'py_bin2', z), 'str')
+        v = self.tr(n.value)
+        if isinstance(sl, ast.Constant) and isinstance(sl.value, int) and not isinstance(sl.value, bool) and sl.value >= 0:
+            if v[1] == 'str':
+                return self.bind('(str_index %s %d)' % (v[0], sl.value), 'char')      # IndexError
+            if v[1] == 'strlist':
+                return self.bind('(nth_r %s %d)' % (v[0], sl.value), 'str')           # IndexError
+        if isinstance(sl, ast.Slice) and v[1] == 'str' and isinstance(sl.lower, ast.Constant) \
+                and isinstance(sl.lower.value, int) and sl.lower.value >= 0 and sl.upper is None and sl.step is None:
+            return ('(skipn %d %s)' % (sl.lower.value, v[0]), 'str')
+        _fail(n, 'unsupported subscript')
+
+    def tr_Call(self, n):
+        f = n.func
+        if isinstance(f, ast.Name) and not n.keywords:
+            if f.id == 'int' and len(n.args) in (1, 2):
+                a = self.tr(n.args[0])
+                if a[1] in ('str', 'char'):
+                    base = 10
+                    if len(n.args) == 2:
+                        b = n.args[1]
+                        if not (isinstance(b, ast.Constant) and isinstance(b.value, int) and 2 <= b.value <= 36):
+                            _fail(n, 'int(s, base) needs a literal base')
+                        base = b.value
+                    return self.bind('(py_int_r %d %s)' % (base, self._as_str(a)), 'Z')   # ValueError
+                if len(n.args) == 1:
+                    return (self.as_Z(a), 'Z')
+            if f.id == 'str' and len(n.args) == 1:
+                a = self.tr(n.args[0])
+                if a[1] in ('Z', 'bool'):
+                    return ('(py_str %s)' % self.as_Z(a), 'str')
+                if a[1] == 'str':
+                    return a
+            if f.id == 'len' and len(n.args) == 1:
+                a = self.tr(n.args[0])
+                if a[1] in ('str', 'strlist') or a[1].endswith('list'):
+                    return ('(Z.of_nat (length %s))' % a[0], 'Z')
+                _fail(n, 'len of a value of type %s' % a[1])
+            if f.id in self.calls and self.calls[f.id][2].startswith('res:'):
+                cname, argtys, rty = self.calls[f.id]
+                if len(argtys) != len(n.args):
+                    _fail(n, 'arity mismatch calling %s' % f.id)
+                args = [self.as_Z(self.tr(a)) if ty == 'Z' else self.as_bool(self.tr(a))
+                        for a, ty in zip(n.args, argtys)]
+                return self.bind('(%s %s)' % (cname, ' '.join(args)), rty[4:])
+        if isinstance(f, ast.Attribute) and f.attr == 'split' and len(n.args) == 1 and not n.keywords \
+                and isinstance(n.args[0], ast.Constant) and isinstance(n.args[0].value, str) and len(n.args[0].value) == 1:
+            v = self.tr(f.value)
+            if v[1] == 'str':
+                return ('(split_on %d %s [])' % (ord(n.args[0].value), v[0]), 'strlist')
+        return ExprTrOpt.tr_Call(self, n)
+
+
+class StmtTrStr(StmtTr):
+    """StmtTr over ExprTrStr: values of the string types may be assigned and returned; the hoisted
+    raising sub-expressions of a statement are matched, in evaluation order, in front of it."""
+
+    def __init__(self, fn, tuple_ctors=(), calls=None, hook=None, assignable=()):
+        StmtTr.__init__(self, fn, tuple_ctors, calls, hook)
+        self.counter = [0]
+        self.assignable = ('Z', 'bool', 'optZ') + ExprTrStr.EXTRA_TYPES + tuple(assignable)
+
+    def expr(self, env):
+        return ExprTrStr(env, self.hook, self.calls, self.counter)
+
+    @staticmethod
+    def wrap(e, text, ind):
+        for nm, rexpr in reversed(e.binds):
+            text = '(match %s with\n%s| Err k__ => Err k__\n%s| Ok %s => %s\n%send)' % (rexpr, ind, ind, nm, text, ind)
+        return text
+
+    def stmts(self, body, env, ind='  '):
+        if not body:
+            _fail(self.fn, 'control reaches the end of the fragment without return/raise')
+        s, rest = body[0], list(body[1:])
+        if isinstance(s, ast.Expr) and isinstance(s.value, ast.Constant) and isinstance(s.value.value, str):
+            return self.stmts(rest, env, ind)
+        if isinstance(s, ast.Return):
+            if s.value is None:
+                _fail(s, 'bare return')
+            e = self.expr(env)
+            t = e.tr(s.value)
+            if t[1] not in self.assignable or t[1] == 'optZ':
+                _fail(s, 'return of a value of type %s' % t[1])
+            return self.wrap(e, '(Ok %s)' % (e.as_Z(t) if t[1] == 'bool' else t[0]), ind)
+        if isinstance(s, ast.Raise):
+            return '(Err %d)' % self.ordinal[id(s)]
+        if isinstance(s, ast.Assign):
+            if len(s.targets) != 1 or not isinstance(s.targets[0], ast.Name):
+                _fail(s, 'only assignment to one plain name')
+            name = s.targets[0].id
+            e = self.expr(env)
+            t = e.tr(s.value)
+            if t[1] not in self.assignable:
+                _fail(s, 'assignment of a value of type %s' % t[1])
+            env2 = dict(env)
+            env2[name] = (coq_ident(name), t[1])
+            return self.wrap(e, '(let %s := %s in\n%s%s)' % (coq_ident(name), t[0], ind,
+                                                              self.stmts(rest, env2, ind)), ind)
+        if isinstance(s, ast.If):
+            if self.refinement(s.test, env) is not None:
+                _fail(s, 'optional refinement is not supported together with strings')
+            e = self.expr(env)
+            c = e.as_bool(e.tr(s.test))
+            return self.wrap(e, '(if %s\n%sthen %s\n%selse %s)' % (
+                c, ind, self.stmts(list(s.body) + rest, env, ind + '  '),
+                ind, self.stmts(list(s.orelse) + rest, env, ind + '  ')), ind)
+        _fail(s, 'unsupported statement')
+
+
+COQ_TYPES.update({'str': 'list Z', 'char': 'Z', 'strlist': 'list (list Z)'})
